@@ -183,7 +183,7 @@ def rule_r4(ctx) -> List[R.Inst]:
                 if dv is not _NODEFAULT and (dv is None or (isinstance(dv, (int, float)) and not isinstance(dv, bool) and dv < 0)):
                     guarded = False
                     if ("reamber." + got[2]) in M.funcs:
-                        for n in ast.walk(M.fn("reamber." + got[2]).node):
+                        for n in ast.walk(M.nfn("reamber." + got[2]).node):      # (the model interprets the normal form)
                             if isinstance(n, ast.If) and any(x is got[1] for b in n.body for x in ast.walk(b)) and f in unparse(n.test):
                                 guarded = True
                     k2 = f"{cname}.rate:{f}:sentinel"
